@@ -59,3 +59,52 @@ def tree_labels_describe_blocks(ttns, verbose=True):
     if ttns.root.tensor.shape[-1] != 1:
         bad = 1
     return bad
+
+
+def op_labels_describe_blocks(mpo, verbose=True):
+    """Operator label invariant, decided with dense NumPy only: for every bond i, every non-zero entry of the dense
+    contraction of sites 0..i-1 (rows = configurations (up, down) of those sites, column = bond index r) carries exactly the
+    stored left-block label: sum_j (sigma_j(up_j) - sigma_j(down_j)) = Llab_i[r]; the boundary labels are 0 / qntot.
+    Returns 0 if it holds, 1 otherwise."""
+    import itertools
+    n = len(mpo)
+    tot = np.asarray(mpo.qntot).reshape(-1)
+    L = []
+    for i, q in enumerate(mpo.qn):
+        q = np.asarray(q).reshape(len(q), -1)
+        L.append(q if i <= mpo.qnidx else tot - q)
+    if len(mpo.qn) != n + 1 or len(L[0]) != 1 or len(L[-1]) != 1 or np.any(L[0][0] != 0) or np.any(L[-1][0] != tot):
+        if verbose:
+            print("operator boundary labels wrong", [np.asarray(x).tolist() for x in mpo.qn], mpo.qnidx, tot)
+        return 1
+    sig = [np.asarray(b.sigmaqn).reshape(b.nbas, -1) for b in mpo.model.basis]
+    left = np.ones((1, 1))                 # (configurations, bond)
+    charges = np.zeros((1, len(tot)), dtype=int)
+    for i, mt in enumerate(mpo):
+        a = np.asarray(mt.array)
+        if a.shape[0] != len(L[i]) or a.shape[3] != len(L[i + 1]):
+            if verbose:
+                print("operator site", i, ": label list length does not match the bond dimension")
+            return 1
+        left = np.einsum("xl,lpqr->xpqr", left, a).reshape(-1, a.shape[3])
+        d = a.shape[1]
+        ch = np.array([sig[i][pu] - sig[i][pd] for pu in range(d) for pd in range(a.shape[2])])
+        charges = (charges[:, None, :] + ch[None, :, :]).reshape(-1, len(tot))
+        thr = 1e-12 * max(np.abs(left).max(), 1e-300)
+        rows, cols = np.nonzero(np.abs(left) > thr)
+        bad = np.any(charges[rows] != L[i + 1][cols], axis=1)
+        if np.any(bad):
+            if verbose:
+                k = int(np.nonzero(bad)[0][0])
+                print("bond %d: a non-zero block of the left part has charge %s but the stored label of index %d is %s"
+                      % (i + 1, charges[rows[k]].tolist(), int(cols[k]), L[i + 1][cols[k]].tolist()))
+            return 1
+        if left.shape[0] > 200000:
+            break
+    return 0
+
+
+def labels_describe_blocks_model(mp, verbose=True):
+    """labels_describe_blocks with the charges taken from mp.model.basis"""
+    sites = [{"sigmaqn": np.asarray(b.sigmaqn).reshape(b.nbas, -1).tolist()} for b in mp.model.basis]
+    return labels_describe_blocks(mp, sites, verbose)
